@@ -39,3 +39,27 @@ Proof.
   - intros h s. exact (runs_on_computed_schedule c h s W P).
   - intros h s. exact (runs_on_computed_schedule c' h s W' P').
 Qed.
+
+(* timeouts that the computed schedule does not reach have no effect: the tree runs exactly as the
+   tree without them (same Sof, Eof: the equations do not mention timeouts) and no timeout fires *)
+Definition slack_ok (c : cfg) : bool := slackb c (fst (solve c)) (snd (solve c)).
+
+Theorem unreached_timeouts_have_no_effect c h s : wf c = true -> plainT c = true -> slack_ok c = true ->
+  Reach 3 c h s -> calm c (Eof c) s ->
+  (forall x, x < njobs c -> x <> 0 -> on_schedule c (Sof c) (Eof c) s x) /\
+  (forall n, n < njobs c -> j_sched (jc c n) = true ->
+     okph (ph (Rn s n)) /\
+     (ph (Rn s n) = PMain -> forall T, j_timeout (jc c n) = Some T ->
+        expi (Rn s n) = Some (Sof c n + T)%N /\ (now s <= Eof c n)%N /\ (Eof c n < Sof c n + T)%N)).
+Proof.
+  intros W P K R C.
+  assert (HS : is_schedule c (Sof c) (Eof c)) by exact (solved c W).
+  assert (HK : slack c (Sof c) (Eof c)) by exact (slackb_sound c _ _ K).
+  split.
+  - exact (runs_on_schedule_timeouts c (Sof c) (Eof c) h s W P HS HK R C).
+  - intros n Hn Hs.
+    destruct (timeouts_never_fire c (Sof c) (Eof c) h s W P HS HK R C n Hn Hs) as [Hok _].
+    split; [exact Hok|]. intros Hm T HT.
+    destruct (expiration_ahead c (Sof c) (Eof c) h s W P HS HK R C n T Hn Hs HT Hm) as (A & B & D).
+    repeat split; assumption.
+Qed.
